@@ -177,6 +177,49 @@ Proof.
   - now rewrite !N.shiftl_succ_r, clmul_double_l, IH.
 Qed.
 
+(* sanity: [clmul] is the commutative, bilinear product with unit 1
+   (not needed for the CRC theorems; pins down that it is the polynomial product) *)
+Lemma clmul_0_r a : clmul a 0 = 0.
+Proof.
+  destruct a as [|p]; [reflexivity|]. cbn [clmul].
+  induction p as [p IH|p IH|]; cbn [clmul_pos]; rewrite ?IH; reflexivity.
+Qed.
+
+Lemma clmul_1_r a : clmul a 1 = a.
+Proof.
+  destruct a as [|p]; [reflexivity|]. cbn [clmul].
+  induction p as [p IH|p IH|]; cbn [clmul_pos]; rewrite ?IH; reflexivity.
+Qed.
+
+Lemma clmul_lxor_r a b c : clmul a (N.lxor b c) = N.lxor (clmul a b) (clmul a c).
+Proof.
+  destruct a as [|p]; [reflexivity|]. cbn [clmul].
+  induction p as [p IH|p IH|]; cbn [clmul_pos]; rewrite ?IH, ?double_lxor;
+    [xor_ring|reflexivity|reflexivity].
+Qed.
+
+Lemma clmul_double_r a b : clmul a (N.double b) = N.double (clmul a b).
+Proof.
+  destruct a as [|p]; [reflexivity|]. cbn [clmul].
+  induction p as [p IH|p IH|]; cbn [clmul_pos]; rewrite ?IH, ?double_lxor; reflexivity.
+Qed.
+
+Lemma clmul_comm a b : clmul a b = clmul b a.
+Proof.
+  induction a as [|a IH|a IH] using N.binary_ind.
+  - now rewrite clmul_0_l, clmul_0_r.
+  - now rewrite clmul_double_l, clmul_double_r, IH.
+  - rewrite clmul_succ_double_l, succ_double_lxor, clmul_lxor_r, clmul_double_r, clmul_1_r, IH.
+    apply N.lxor_comm.
+Qed.
+
+Example clmul_ex1 : clmul 5 3 = 15.         (* (x^2+1)(x+1) = x^3+x^2+x+1 *)
+Proof. reflexivity. Qed.
+Example clmul_ex2 : clmul 3 3 = 5.   (* (x+1)^2 = x^2+1 *)
+Proof. reflexivity. Qed.
+Example popcount_ex : popcount 0x59 = 4 /\ popcount G = 14.
+Proof. split; reflexivity. Qed.
+
 (* constant term of a product *)
 Lemma clmul_odd a b : N.odd (clmul a b) = N.odd a && N.odd b.
 Proof.
